@@ -418,15 +418,23 @@ pub fn same_out<const N: usize>(a: &Vec<f64>, b: &Vec<Option<f64>>, fl: &mut EFl
     ok
 }
 
-/// `ts_vmin` / `ts_vsum` on Option<i32> data: f64 output vs Option<f64> output
-pub fn enc_output<const N: usize>(fl: &mut EFl) {
-    let k = keys::<N>(Alpha::Sum);
+/// `ts_vmin` on Option<i32> data: f64 output vs Option<f64> output
+pub fn enc_output_vmin<const N: usize>(fl: &mut EFl) {
+    let k = keys::<N>(Alpha::Small);
     enc_witness(&k, fl);
     let (w, mp) = any_params::<N>();
     let v: Vec<Option<i32>> = k.to_vec();
     let a: Vec<f64> = v.ts_vmin(w, mp);
     let b: Vec<Option<f64>> = v.ts_vmin(w, mp);
     assert!(same_out::<N>(&a, &b, fl), "ts_vmin gives the same values as f64 (NaN) and as Option<f64> (None) output");
+}
+
+/// `ts_vsum` on Option<i32> data (|x| <= 1000): f64 output vs Option<f64> output
+pub fn enc_output_vsum<const N: usize>(fl: &mut EFl) {
+    let k = keys::<N>(Alpha::Sum);
+    enc_witness(&k, fl);
+    let (w, mp) = any_params::<N>();
+    let v: Vec<Option<i32>> = k.to_vec();
     let a: Vec<f64> = v.ts_vsum(w, mp);
     let b: Vec<Option<f64>> = v.ts_vsum(w, mp);
     assert!(same_out::<N>(&a, &b, fl), "ts_vsum gives the same values as f64 (NaN) and as Option<f64> (None) output");
